@@ -30,8 +30,12 @@ pub uninterp spec fn joined(a: int, b: int) -> int;                // a.join(b)
 pub uninterp spec fn has_toml(d: int) -> bool;                     // stylua.toml or .stylua.toml exists in d
 pub uninterp spec fn toml_ok(d: int) -> bool;                      // ... and it reads and deserialises
 pub uninterp spec fn toml_config(d: int) -> Config;                // its contents (before CLI overrides)
-pub uninterp spec fn fallback_ok(o: opt::Opt) -> bool;             // XDG / HOME search does not fail
-pub uninterp spec fn fallback_config(o: opt::Opt) -> Option<Config>;   // what the XDG / HOME search finds (after overrides)
+// the environment (class B: std::env::var / Path::exists read it): $XDG_CONFIG_HOME and $HOME as paths, which directories exist
+pub uninterp spec fn env_xdg() -> Option<int>;
+pub uninterp spec fn env_home() -> Option<int>;
+pub uninterp spec fn dir_exists(d: int) -> bool;
+pub uninterp spec fn joined_name(d: int, name: Seq<char>) -> int;   // d.join("<name>")
+pub uninterp spec fn sid(s: &String) -> int;                        // the path a string names
 pub uninterp spec fn editorconfig_ok(base: Config, p: int) -> bool;
 pub uninterp spec fn editorconfig_of(base: Config, p: int) -> Config;
 pub proof fn axiom_depth(d: int)
@@ -68,6 +72,26 @@ pub open spec fn overridden(c: Config, o: opt::Opt) -> Config {
     }
 }
 pub enum Found { Failed, Config(Config), Nothing }
+// the documented places after the walk to the root (README "Finding the configuration"; C15: "then the XDG/HOME locations"), in this order:
+// $XDG_CONFIG_HOME, $XDG_CONFIG_HOME/stylua, $HOME/.config, $HOME/.config/stylua — the first stylua.toml / .stylua.toml found is used
+pub open spec fn dir_lookup(d: int, o: opt::Opt) -> Found {
+    if has_toml(d) { if toml_ok(d) { Found::Config(overridden(toml_config(d), o)) } else { Found::Failed } } else { Found::Nothing }
+}
+pub open spec fn place_lookup(d: int, o: opt::Opt) -> Found {
+    if !dir_exists(d) { Found::Nothing }
+    else { match dir_lookup(d, o) {
+        Found::Nothing => if dir_exists(joined_name(d, "stylua"@)) { dir_lookup(joined_name(d, "stylua"@), o) } else { Found::Nothing },
+        x => x,
+    } }
+}
+pub open spec fn fallback(o: opt::Opt) -> Found {
+    match (if env_xdg() is Some { place_lookup(env_xdg()->Some_0, o) } else { Found::Nothing }) {
+        Found::Nothing => if env_home() is Some { place_lookup(joined_name(env_home()->Some_0, ".config"@), o) } else { Found::Nothing },
+        x => x,
+    }
+}
+pub open spec fn fallback_ok(o: opt::Opt) -> bool { !(fallback(o) is Failed) }
+pub open spec fn fallback_config(o: opt::Opt) -> Option<Config> { found_option(fallback(o)) }
 // nearest stylua.toml / .stylua.toml walking up from d, stopping at root (or at the file-system root, then XDG/HOME
 // with --search-parent-directories)
 pub open spec fn search(d: int, root: Option<int>, o: opt::Opt) -> Found
@@ -107,6 +131,14 @@ VERIF = r"""
 #[verifier::external_body] pub fn editorconfig_parse(base: Config, p: &Path) -> (r: Result<Config>)
     ensures (r is Ok) == editorconfig_ok(base, pid(p)), r is Ok ==> r->Ok_0 == editorconfig_of(base, pid(p)) { unimplemented!() }
 #[verifier::external_body] pub fn no_parent_error() -> (r: anyhow::Error) { unimplemented!() }
+pub struct NotPresent;
+#[verifier::external_body] pub fn env_var_xdg_config_home() -> (r: Result<String, NotPresent>)
+    ensures (r is Ok) == (env_xdg() is Some), r is Ok ==> sid(&r->Ok_0) == env_xdg()->Some_0 { unimplemented!() /* std::env::var("XDG_CONFIG_HOME") */ }
+#[verifier::external_body] pub fn env_var_home() -> (r: Result<String, NotPresent>)
+    ensures (r is Ok) == (env_home() is Some), r is Ok ==> sid(&r->Ok_0) == env_home()->Some_0 { unimplemented!() /* std::env::var("HOME") */ }
+#[verifier::external_body] pub fn path_new(s: &String) -> (r: &Path) ensures pid(r) == sid(s) { unimplemented!() /* Path::new(s) */ }
+#[verifier::external_body] pub fn path_exists(p: &Path) -> (r: bool) ensures r == dir_exists(pid(p)) { unimplemented!() /* p.exists() */ }
+#[verifier::external_body] pub fn path_join_name(p: &Path, name: &str) -> (r: PathBuf) ensures pbid(&r) == joined_name(pid(p), name@) { unimplemented!() /* p.join(name) */ }
 """
 
 def conv(field, fn):
@@ -203,12 +235,20 @@ def items():
         has_toml(pid(directory)) ==> (r is Ok) == toml_ok(pid(directory)),
         has_toml(pid(directory)) && r is Ok ==> r->Ok_0 == Some(overridden(toml_config(pid(directory)), *self.opt)), //# C15.config_in_directory
 """, edits=[DropMacros(), Hole("read_and_apply_overrides(&file_path, self.opt)?", "verif::read_toml_with_overrides(directory, &file_path, self.opt)?", kind="wrapper", why="fs::read_to_string + toml::from_str + load_overrides behind the ghost file system")]),
-        Raw("""
-impl ConfigResolver<'_> {
-    #[verifier::external_body] pub fn search_config_locations(&self) -> (r: Result<Option<Config>>)
-        ensures (r is Ok) == fallback_ok(*self.opt), r is Ok ==> r->Ok_0 == fallback_config(*self.opt) { unimplemented!() }
-}
-""", module="config"),
+        Fn(CFG, "search_config_locations", impl_of="ConfigResolver", impl_header="impl ConfigResolver<'_>", contract="""
+    ensures
+        (r is Ok) == !(fallback(*self.opt) is Failed), //# C15.fallback_errors
+        r is Ok ==> r->Ok_0 == found_option(fallback(*self.opt)), //# C15.fallback_order
+""", edits=[DropMacros(),
+            Hole('std::env::var("XDG_CONFIG_HOME")', "verif::env_var_xdg_config_home()", kind="wrapper", why="std::env::var behind the ghost environment"),
+            Hole('std::env::var("HOME")', "verif::env_var_home()", kind="wrapper", why="std::env::var behind the ghost environment"),
+            Hole("Path::new(&xdg_config)", "verif::path_new(&xdg_config)", kind="wrapper", why="Path::new::<String> (generic AsRef<OsStr>)"),
+            Hole('Path::new(&home).join(".config")', 'verif::path_join_name(verif::path_new(&home), ".config")', kind="wrapper", why="Path::new / Path::join::<&str> (generic AsRef)"),
+            Hole('xdg_config_path.join("stylua")', 'verif::path_join_name(xdg_config_path, "stylua")', kind="wrapper", why="Path::join::<&str>"),
+            Hole('home_config_path.join("stylua")', 'verif::path_join_name(&home_config_path, "stylua")', kind="wrapper", why="Path::join::<&str>"),
+            Hole("xdg_config_path.exists()", "verif::path_exists(&xdg_config_path)", count=None, kind="wrapper", why="Path::exists (file system)"),
+            Hole("home_config_path.exists()", "verif::path_exists(&home_config_path)", count=None, kind="wrapper", why="Path::exists (file system)"),
+        ]),
         Fn(CFG, "find_config_file", impl_of="ConfigResolver", impl_header="impl ConfigResolver<'_>", contract="""
     requires old(self).wf(), (root is Some) == (old(self).root_id() is Some), root is Some ==> pbid(&root->Some_0) == old(self).root_id()->Some_0,
     ensures
@@ -250,6 +290,8 @@ LABELS = {
     "C15.config_in_directory": dict(props=["C15"], text="lookup_config_file_in_directory: the directory's stylua.toml/.stylua.toml, read and with CLI overrides applied; none => None; unreadable => error"),
     "C15.cache_invariant": dict(props=["C15"], text="find_config_file keeps the memo-table invariant: every cached entry equals the documented upward search from that directory"),
     "C15.cache_invariant_load": dict(props=["C15"], text="load_configuration keeps the memo-table invariant (nothing but search results is ever cached)"),
+    "C15.fallback_errors": dict(props=["C15"], text="search_config_locations fails exactly when the first configuration file found in the documented places cannot be read"),
+    "C15.fallback_order": dict(props=["C15"], text="search_config_locations: $XDG_CONFIG_HOME, $XDG_CONFIG_HOME/stylua, $HOME/.config, $HOME/.config/stylua, in this order, each only if the directory exists; the first stylua.toml / .stylua.toml found, with the CLI overrides applied"),
     "C15.search_errors": dict(props=["C15", "C20"], text="find_config_file fails exactly when the nearest configuration file (or the XDG/HOME fallback) cannot be read"),
     "C15.nearest_config": dict(props=["C15"], text="find_config_file returns the nearest stylua.toml/.stylua.toml walking up, stopping at the working directory, or continuing to the root and the XDG/HOME locations with --search-parent-directories"),
     "C15.load_errors": dict(props=["C15"], text="load_configuration fails exactly when the documented search or the editorconfig fallback fails"),
